@@ -160,7 +160,7 @@ Theorem C19_amounts_domain : forall sg k a, amt_ok sg k a <->
   | KPico, false => 0 <= a <= 2 ^ 64 - 1 | KPico, true => - 2 ^ 63 <= a <= 2 ^ 63 - 1
   | KXmr, false => 0 <= a <= 2 ^ 63 - 1 | KXmr, true => - (2 ^ 63 - 1) <= a <= 2 ^ 63 - 1
   end.
-Proof. intros sg k a. destruct k, sg; reflexivity. Qed.
+Proof. exact amt_ok_spec. Qed.
 
 (* beyond C15's parsing limit the monero string is still written but is refused on reading (Amount above 2^63-1, SignedAmount::MIN) *)
 Theorem C19_xmr_limit : (forall a, 2 ^ 63 - 1 < a <= 2 ^ 64 - 1 -> exists j, to_json_xmr_u a = AOk j /\ of_json_xmr_u j = None) /\
